@@ -118,6 +118,32 @@ type stepCase struct {
 	RaiseAt       int  `json:"raise_at,omitempty"`
 	RaiseNMI      bool `json:"raise_nmi,omitempty"`
 	MaskedPending bool `json:"masked_pending,omitempty"`
+	// ShortLen (MemKind 3): the emulator runs on a DumbMemory of this length; beyond it reads give 0 and writes are
+	// dropped (C15), and the model sees the same memory.
+	ShortLen int `json:"short_len,omitempty"`
+	// FaultAt > 0: the CPU value has a history - in its previous Step a device callback panicked at the FaultAt-th
+	// bus access (a bus fault, a write-protect trap) and the host recovered. Every exported field is overwritten
+	// afterwards, so the Step under test must not notice.
+	FaultAt int `json:"fault_at,omitempty"`
+}
+
+// shortRecBus is the model's view of a DumbMemory of length n.
+type shortRecBus struct {
+	*bus.Rec
+	n int
+}
+
+func (s *shortRecBus) Read(a uint16) uint8 {
+	if int(a) >= s.n {
+		return 0
+	}
+	return s.Rec.Read(a)
+}
+
+func (s *shortRecBus) Write(a uint16, v uint8) {
+	if int(a) < s.n {
+		s.Rec.Write(a, v)
+	}
 }
 
 // stepRig holds the reusable machinery of one worker.
@@ -139,6 +165,7 @@ const (
 	memRec = iota
 	memDumb
 	memMap
+	memShort
 )
 
 type counter struct{ n int }
@@ -178,15 +205,38 @@ func (r *stepRig) run(c *stepCase, code []uint8) stepOutcome {
 	}
 	// model first: if it does not implement the encoding there is no verdict
 	o.want = c.St
-	o.in = ref.Step(&o.want, r.mb)
+	if c.MemKind == memShort {
+		o.in = ref.Step(&o.want, &shortRecBus{r.mb, c.ShortLen})
+	} else {
+		o.in = ref.Step(&o.want, r.mb)
+	}
 	if !o.in.Implemented {
 		o.skipped = true
 		return o
 	}
+	if c.FaultAt > 0 {
+		// history: the same instruction from the same state, but a callback panics in mid-Step and the host recovers
+		f := r.prev
+		f.RETNHandler, f.RETIHandler, f.Interrupt, f.BreakPoints = nil, nil, nil, nil
+		f.Memory, f.IO = r.ib, r.ib
+		eng.ToCPU(&c.St, &f)
+		at := c.FaultAt
+		r.ib.Hook = func(n int, _ bus.Access) {
+			if n == at {
+				panic("bus fault injected by the harness")
+			}
+		}
+		eng.SafeStep(&f)
+		r.prev = f
+		r.ib.Reset(c.MemSeed, c.IOSeed, c.Fill, c.IOFill)
+		for i, b := range code {
+			r.ib.Poke(c.St.PC+uint16(i), b)
+		}
+	}
 	// half of the cases start from a brand-new CPU value, the other half from a struct copy of the CPU
 	// that ran the previous case with every exported field overwritten: a Step depends on the public
 	// state only, so whatever else such a value carries along must not matter
-	if c.MemSeed>>6&1 == 0 {
+	if c.MemSeed>>6&1 == 0 && c.FaultAt == 0 {
 		r.cpu = z80.CPU{}
 	} else {
 		r.cpu = r.prev
@@ -218,6 +268,16 @@ func (r *stepRig) run(c *stepCase, code []uint8) stepOutcome {
 			}
 		}
 		r.cpu.Memory = r.dumb
+	case memShort:
+		if r.dumb == nil {
+			r.dumb = make(z80.DumbMemory, 65536)
+		}
+		for _, x := range r.mb.Log {
+			if x.K == bus.Read || x.K == bus.Write {
+				r.dumb[x.Addr] = r.ib.Peek(x.Addr)
+			}
+		}
+		r.cpu.Memory = r.dumb[:c.ShortLen:c.ShortLen]
 	case memMap:
 		// sparse: cells holding the type's default 0xC7 stay absent from the map (Get must supply the default)
 		mm = z80.MapMemory{}
@@ -298,7 +358,7 @@ func (r *stepRig) run(c *stepCase, code []uint8) stepOutcome {
 				continue
 			}
 			var g uint8
-			if r.memKind == memDumb {
+			if r.memKind == memDumb || r.memKind == memShort {
 				g = r.dumb[x.Addr]
 			} else {
 				g = mm.Get(x.Addr)
@@ -517,6 +577,26 @@ func (p *stepProp) claimed(ds []eng.Disc) *eng.Disc {
 	return nil
 }
 
+// shortLen picks the length of the short DumbMemory of a case: mostly just behind the instruction or at / next to an
+// address a register points to, so that operands fall off the end.
+func shortLen(c *stepCase, n int) int {
+	st := &c.St
+	hl := int(st.H)<<8 | int(st.L)
+	cands := []int{int(st.PC) + n, hl, hl + 1, int(st.D)<<8 | int(st.E), int(st.B)<<8 | int(st.C), int(st.SP) - 1, int(st.SP), int(st.SP) + 1,
+		int(st.IX), int(st.IY), int(c.MemSeed >> 20 & 0xffff), 0, 1, int(st.PC) + 1}
+	l := cands[int(c.MemSeed>>36)%len(cands)]
+	if c.MemSeed>>41&3 != 0 && l < int(st.PC)+n {
+		l = int(st.PC) + n // mostly the instruction itself is inside
+	}
+	if l < 0 {
+		l = 0
+	}
+	if l > 65536 {
+		l = 65536
+	}
+	return l
+}
+
 // one runs a single (draw, encoding) pair; returns a violation message or "".
 func (p *stepProp) one(d *stepDraw, ei int, t failer) {
 	e := &p.encs[ei]
@@ -533,6 +613,11 @@ func (p *stepProp) one(d *stepDraw, ei int, t failer) {
 		if d.memSeed>>13&1 == 0 {
 			c.Fill = 0xC7 // all data cells hold MapMemory's default: none of them is in the map
 		}
+	case 5:
+		c.MemKind = memShort
+		c.ShortLen = shortLen(&c, len(code))
+	case 6:
+		c.FaultAt = 1 + int(d.memSeed>>12)%5
 	case 4:
 		// a device raises a request in the middle of the instruction
 		c.RaiseAt = 1 + int(d.memSeed>>12)%6
@@ -586,6 +671,13 @@ func (p *stepProp) one(d *stepDraw, ei int, t failer) {
 		p.col.Label("machine:DumbMemory")
 	case c.MemKind == memMap:
 		p.col.Label("machine:MapMemory")
+	case c.MemKind == memShort:
+		p.col.Label("machine:short-DumbMemory")
+		if c.ShortLen >= int(c.St.PC)+len(code) {
+			p.col.Label("machine:short-DumbMemory-holding-the-instruction")
+		}
+	case c.FaultAt > 0:
+		p.col.Label("machine:cpu-value-recovered-from-a-callback-panic")
 	case c.RaiseAt > 0:
 		p.col.Label("machine:request-raised-during-step")
 	}
